@@ -22,6 +22,8 @@
 //!   capq <i> <client> <kind> <cls> <code> <path> <n> <payload>  like cap, the path given as UTF-8 bytes
 //!   capr <i> <client> <kind> <cls> <code> <cls2> <code2> <n2> <payload2>  the peer answers with an array of type 2
 //!   capt <i> <client>                                           the peer does not answer: the call times out
+//!   frag <i> <server> <cuts> <kind> <route> <cls> <code> <plen> <n> <payload>   the request written raw to a real
+//!                                   server in pieces (cuts: `1` = byte by byte, or offsets `a,b,c`; suffix `s` = stall)
 //!   seq <i> <cls> <code> <s1> <s2> <qafter> <qlen> <cap> <p1> <p2>   two body setters in a row on one builder
 //!   cap <i> <client> <kind> <cls> <code> <plen> <n> <payload>    the raw request frame a client helper puts on the
 //!                                                                wire (capture peer), then served by the borrowing route
@@ -559,14 +561,21 @@ fn op_adec<T: Elem>(c: &mut Ctx, addr: usize, body: &[u8]) -> (String, bool) {
 fn op_aref<T: Elem>(c: &mut Ctx, cls: u8, code: u8, mis: usize, qlen: usize, qafter: bool, wire: u8, n: usize, payload: &[u8]) -> (String, bool) {
     let xs: Vec<T> = vec_of(payload);
     let path = path_of(qlen);
-    let b = Message::builder().id(77).query_format_code(1);
-    let m = if qafter {
-        b.body_aligned_typed_slice(&xs).query_bytes(path.clone().into_bytes()).build()
-    } else {
-        b.query_bytes(path.clone().into_bytes()).body_aligned_typed_slice(&xs).build()
+    let mk = || {
+        let b = Message::builder().id(77).query_format_code(1);
+        if qafter {
+            b.body_aligned_typed_slice(&xs).query_bytes(path.clone().into_bytes()).build()
+        } else {
+            b.query_bytes(path.clone().into_bytes()).body_aligned_typed_slice(&xs).build()
+        }
     };
+    let m = mk();
     let body = m.body.clone();
-    let frame = if wire == 1 { m.clone().into_wire_bytes() } else { m.to_vec() };
+    // (a clone would lose the headroom the builder reserved: the in-place branch needs the builder's own buffer)
+    let frame = if wire == 1 { mk().into_wire_bytes() } else { m.to_vec() };
+    if wire == 1 && frame != m.to_vec() {
+        c.fail("numeric.aref.into_wire_bytes_ne_to_vec", "into_wire_bytes on the builder's own buffer differs from to_vec".into());
+    }
     let placed = Placed::new(&frame, mis);
     let (h, seen) = ref_router::<T>(&path);
     let align = std::mem::align_of::<T>();
@@ -817,16 +826,19 @@ fn op_stream<T: Elem>(c: &mut Ctx, complex: bool, id: u64, notify: bool, ec: u32
     h.query_length = 9;
     h.body_length = 11;
     let mut streamed = Vec::new();
-    let mut b = Message::builder().id(id).notify(notify).query_format_code(qfmt).query_bytes(q.to_vec());
-    if let Ok(code) = repe::ErrorCode::try_from(ec) {
-        b = b.error_code(code);
-    }
-    let (r, built) = if complex {
+    let mkb = || {
+        let mut b = Message::builder().id(id).notify(notify).query_format_code(qfmt).query_bytes(q.to_vec());
+        if let Ok(code) = repe::ErrorCode::try_from(ec) {
+            b = b.error_code(code);
+        }
+        b
+    };
+    let (r, built, built_own) = if complex {
         let xs: Vec<Complex<T>> = cvec_of(payload);
-        (catch(|| repe::write_message_complex_slice(&mut streamed, h, q, &xs)), b.body_complex_slice(&xs).build())
+        (catch(|| repe::write_message_complex_slice(&mut streamed, h, q, &xs)), mkb().body_complex_slice(&xs).build(), mkb().body_complex_slice(&xs).build())
     } else {
         let xs: Vec<T> = vec_of(payload);
-        (catch(|| repe::write_message_typed_slice(&mut streamed, h, q, &xs)), b.body_typed_slice(&xs).build())
+        (catch(|| repe::write_message_typed_slice(&mut streamed, h, q, &xs)), mkb().body_typed_slice(&xs).build(), mkb().body_typed_slice(&xs).build())
     };
     let k = if complex { "cstream" } else { "stream" };
     match r {
@@ -839,7 +851,8 @@ fn op_stream<T: Elem>(c: &mut Ctx, complex: bool, id: u64, notify: bool, ec: u32
     let buffered = built.to_vec();
     let mut written = Vec::new();
     repe::write_message(&mut written, &built).unwrap();
-    let wire = built.clone().into_wire_bytes();
+    // the builder's own buffer (with its reserved headroom), not a clone: the in-place branch
+    let wire = built_own.into_wire_bytes();
     if streamed != buffered || written != buffered || wire != buffered {
         c.fail(&format!("numeric.{}.streaming_ne_buffered", k), format!("streamed {} bytes, buffered {} bytes; write_message equal: {}, into_wire_bytes equal: {}", streamed.len(), buffered.len(), written == buffered, wire == buffered));
     }
@@ -874,6 +887,29 @@ fn op_stream<T: Elem>(c: &mut Ctx, complex: bool, id: u64, notify: bool, ec: u32
         let r = catch(|| repe::write_message_streaming(&mut sink, h, q, 3, |_w: &mut Vec<u8>| Err::<(), std::io::Error>(std::io::Error::new(std::io::ErrorKind::Other, "producer failed"))));
         if r.is_err() {
             c.fail(&format!("numeric.{}.failing_body_writer", k), "a body writer returning Err made the streaming writer panic".into());
+        }
+    }
+    {
+        // a sink that reports `Interrupted` on every other call and takes a few bytes otherwise
+        struct Interrupting { out: Vec<u8>, tick: u32, max: usize }
+        impl std::io::Write for Interrupting {
+            fn write(&mut self, buf: &[u8]) -> std::io::Result<usize> {
+                self.tick += 1;
+                if self.tick % 2 == 1 {
+                    return Err(std::io::Error::new(std::io::ErrorKind::Interrupted, "signal"));
+                }
+                let n = buf.len().min(self.max);
+                self.out.extend_from_slice(&buf[..n]);
+                Ok(n)
+            }
+            fn flush(&mut self) -> std::io::Result<()> { Ok(()) }
+        }
+        for max in [5usize, 48, 4096] {
+            let mut sink = Interrupting { out: Vec::new(), tick: 0, max };
+            let r = catch(|| if complex { repe::write_message_complex_slice(&mut sink, h, q, &cvec_of::<T>(payload)) } else { repe::write_message_typed_slice(&mut sink, h, q, &vec_of::<T>(payload)) });
+            if !matches!(r, Ok(Ok(()))) || sink.out != buffered {
+                c.fail(&format!("numeric.{}.interrupted_sink_ne_buffered", k), format!("a sink reporting Interrupted between writes of {} bytes: {} bytes arrived, builder frame {}", max, sink.out.len(), buffered.len()));
+            }
         }
     }
     {
@@ -1014,9 +1050,9 @@ const PLENS: [usize; 9] = [1, 8, 9, 10, 11, 12, 13, 14, 15];
 
 struct Net {
     rt: tokio::runtime::Runtime,
-    addr: [String; 2],
-    sync_client: [repe::Client; 2],
-    async_client: [repe::AsyncClient; 2],
+    addr: [String; 3],
+    sync_client: [repe::Client; 3],
+    async_client: [repe::AsyncClient; 3],
     /// clients connected to the capture peer, and the frames it recorded
     /// WebSocket server (same router) and its client: only the serde helper exists there
     ws_client: repe::websocket_client::WebSocketClient,
@@ -1028,7 +1064,7 @@ struct Net {
 /// A stand-in peer that records every request frame byte for byte and answers it: the request body
 /// comes back as the response body (an aligned request is answered with an empty array of its type).
 /// What the capture peer answers next instead of the echo (set by `capr`).
-static NEXT_RESPONSE: Mutex<Option<Vec<u8>>> = Mutex::new(None);
+static NEXT_RESPONSE: Mutex<Option<(u16, Vec<u8>)>> = Mutex::new(None);
 
 fn start_capture() -> (String, std::sync::mpsc::Receiver<Vec<u8>>) {
     use std::io::{Read, Write};
@@ -1060,19 +1096,36 @@ fn start_capture() -> (String, std::sync::mpsc::Receiver<Vec<u8>>) {
                     frame.extend_from_slice(&rest);
                     let body = &rest[q..];
                     let forced = NEXT_RESPONSE.lock().unwrap().take();
-                    let resp_body: Vec<u8> = match forced {
-                        Some(b) => b,
-                        None if body.first() == Some(&0x5C) && body.len() > 1 => vec![body[1], 0],
-                        None => body.to_vec(),
+                    let (resp_fmt, resp_body): (u16, Vec<u8>) = match forced {
+                        Some(fb) => fb,
+                        None if body.first() == Some(&0x5C) && body.len() > 1 => (1, vec![body[1], 0]),
+                        None => (1, body.to_vec()),
                     };
-                    let resp = RawFrame::request(id, false, 1, &rest[..q], 1, &resp_body).to_vec();
+                    let resp = RawFrame::request(id, false, 1, &rest[..q], resp_fmt, &resp_body).to_vec();
                     // a request for "/!noanswer" is recorded and never answered
                     let notify = hdr[11] != 0 || rest[..q].starts_with(b"/!noanswer");
                     if tx.send(frame).is_err() {
                         return;
                     }
-                    if !notify && stream.write_all(&resp).is_err() {
-                        return;
+                    if !notify {
+                        let qb = &rest[..q];
+                        let ok = if qb.starts_with(b"/!frag") {
+                            // the answer arrives in pieces (byte by byte for "/!frag1"), with a stall in the middle
+                            let step = if qb.starts_with(b"/!frag1") { 1 } else { (resp.len() / 3).max(1) };
+                            let mut good = true;
+                            for (i, piece) in resp.chunks(step).enumerate() {
+                                good &= stream.write_all(piece).is_ok() && stream.flush().is_ok();
+                                if i == 1 {
+                                    std::thread::sleep(std::time::Duration::from_millis(25));
+                                }
+                            }
+                            good
+                        } else {
+                            stream.write_all(&resp).is_ok()
+                        };
+                        if !ok {
+                            return;
+                        }
                     }
                 }
             });
@@ -1110,8 +1163,26 @@ fn make_router() -> Router {
     r
 }
 
+static SEED: std::sync::atomic::AtomicU64 = std::sync::atomic::AtomicU64::new(1);
+
+/// Index of a TCP server token (0 blocking, 1 async, 3 blocking with read/write timeouts and nodelay) in the tables.
+fn srv_ix(token: usize) -> usize {
+    if token == 3 { 2 } else { token }
+}
+
 fn start_net() -> Net {
-    let rt = tokio::runtime::Builder::new_multi_thread().worker_threads(2).enable_all().build().unwrap();
+    // odd seeds: a starved runtime (one worker, one blocking thread); even seeds: two of each
+    let k = 1 + (SEED.load(std::sync::atomic::Ordering::Relaxed) % 2) as usize;
+    let rt = tokio::runtime::Builder::new_multi_thread().worker_threads(k).max_blocking_threads(k).enable_all().build().unwrap();
+    let l3 = std::net::TcpListener::bind("127.0.0.1:0").unwrap();
+    let a3 = l3.local_addr().unwrap().to_string();
+    let srv3 = repe::Server::new(make_router())
+        .read_timeout(Some(std::time::Duration::from_secs(25)))
+        .write_timeout(Some(std::time::Duration::from_secs(25)))
+        .tcp_nodelay(true);
+    std::thread::spawn(move || {
+        let _ = srv3.serve(l3);
+    });
     let listener = std::net::TcpListener::bind("127.0.0.1:0").unwrap();
     let a0 = listener.local_addr().unwrap().to_string();
     let srv = repe::Server::new(make_router());
@@ -1127,8 +1198,8 @@ fn start_net() -> Net {
         });
         a
     });
-    let sync_client = [repe::Client::connect(&a0).unwrap(), repe::Client::connect(&a1).unwrap()];
-    let async_client = rt.block_on(async { [repe::AsyncClient::connect(&a0).await.unwrap(), repe::AsyncClient::connect(&a1).await.unwrap()] });
+    let sync_client = [repe::Client::connect(&a0).unwrap(), repe::Client::connect(&a1).unwrap(), repe::Client::connect(&a3).unwrap()];
+    let async_client = rt.block_on(async { [repe::AsyncClient::connect(&a0).await.unwrap(), repe::AsyncClient::connect(&a1).await.unwrap(), repe::AsyncClient::connect(&a3).await.unwrap()] });
     let ws_url = rt.block_on(async {
         let l = tokio::net::TcpListener::bind("127.0.0.1:0").await.unwrap();
         let a = l.local_addr().unwrap();
@@ -1142,7 +1213,7 @@ fn start_net() -> Net {
     let (ca, rx) = start_capture();
     let cap_sync = repe::Client::connect(&ca).unwrap();
     let cap_async = rt.block_on(async { repe::AsyncClient::connect(&ca).await.unwrap() });
-    Net { rt, addr: [a0, a1], sync_client, async_client, ws_client, cap_sync, cap_async, captured: Mutex::new(rx) }
+    Net { rt, addr: [a0, a1, a3], sync_client, async_client, ws_client, cap_sync, cap_async, captured: Mutex::new(rx) }
 }
 
 #[allow(clippy::too_many_arguments)]
@@ -1152,12 +1223,12 @@ fn op_net<T: Elem>(c: &mut Ctx, server: usize, client: &str, kind: &str, route: 
     let path = net_path(route, cls, code, plen);
     let t = std::time::Duration::from_secs(30);
     let r: Result<Vec<T>, repe::RepeError> = match (client, kind) {
-        ("sync", "bulk") => net.sync_client[server].call_typed_slice_with_timeout(&path, &xs, t),
-        ("sync", "aligned") => net.sync_client[server].call_typed_slice_aligned_with_timeout(&path, &xs, t),
-        ("sync", "serde") => net.sync_client[server].call_typed_beve_with_timeout(&path, &xs, t),
-        ("async", "bulk") => net.rt.block_on(net.async_client[server].call_typed_slice_with_timeout(&path, &xs, t)),
-        ("async", "aligned") => net.rt.block_on(net.async_client[server].call_typed_slice_aligned_with_timeout(&path, &xs, t)),
-        ("async", "serde") => net.rt.block_on(net.async_client[server].call_typed_beve_with_timeout(&path, &xs, t)),
+        ("sync", "bulk") => net.sync_client[srv_ix(server)].call_typed_slice_with_timeout(&path, &xs, t),
+        ("sync", "aligned") => net.sync_client[srv_ix(server)].call_typed_slice_aligned_with_timeout(&path, &xs, t),
+        ("sync", "serde") => net.sync_client[srv_ix(server)].call_typed_beve_with_timeout(&path, &xs, t),
+        ("async", "bulk") => net.rt.block_on(net.async_client[srv_ix(server)].call_typed_slice_with_timeout(&path, &xs, t)),
+        ("async", "aligned") => net.rt.block_on(net.async_client[srv_ix(server)].call_typed_slice_aligned_with_timeout(&path, &xs, t)),
+        ("async", "serde") => net.rt.block_on(net.async_client[srv_ix(server)].call_typed_beve_with_timeout(&path, &xs, t)),
         // server index 2: the WebSocket server, reached by the WebSocket client's serde helper
         ("ws", "serde") => net.rt.block_on(net.ws_client.call_typed_beve_with_timeout(&path, &xs, t)),
         _ => panic!("unknown client kind"),
@@ -1230,7 +1301,7 @@ fn op_seq<T: Elem>(c: &mut Ctx, s1: &str, s2: &str, qafter: bool, qlen: usize, c
     let frame = both.to_vec();
     let mut written = Vec::new();
     repe::write_message(&mut written, &both).unwrap();
-    let wire = both.clone().into_wire_bytes();
+    let wire = finish(apply_setter::<T>(apply_setter::<T>(start(), s1, p1, cap), s2, p2, cap)).into_wire_bytes();
     if both.body != fresh.body || both.header.body_length != fresh.body.len() as u64 {
         let at = both.body.iter().zip(fresh.body.iter()).position(|(a, b)| a != b).unwrap_or(both.body.len().min(fresh.body.len()));
         c.fail(&format!("numeric.seq.{}_then_{}.stale_body", s1, s2), format!("after {} then {} the body has {} bytes (declared {}), a fresh builder with {} alone gives {} bytes; first difference at byte {}", s1, s2, both.body.len(), both.header.body_length, s2, fresh.body.len(), at));
@@ -1478,7 +1549,7 @@ fn op_abld<T: Elem>(c: &mut Ctx, cls: u8, code: u8, mis: usize, wire: u8, q: &[u
     if beve::aligned_typed_slice_size(&xs, 48 + q.len()) != body.len() {
         c.fail("numeric.abld.size_closed_form", "aligned_typed_slice_size differs from the bytes written".into());
     }
-    let frame = if wire == 1 { m.clone().into_wire_bytes() } else { m.to_vec() };
+    let frame = if wire == 1 { Message::builder().id(3).query_bytes(q.to_vec()).body_aligned_typed_slice(&xs).build().into_wire_bytes() } else { m.to_vec() };
     if frame != RawFrame::request(3, false, 0, q, 1, &want).to_vec() {
         c.fail("numeric.abld.frame_ne_spec", "the frame differs from header + query + spec-layout body".into());
     }
@@ -1514,13 +1585,14 @@ fn op_abld<T: Elem>(c: &mut Ctx, cls: u8, code: u8, mis: usize, wire: u8, q: &[u
 
 /// The peer answers a bulk / aligned call with a regular typed array of another (or the same) element
 /// type: the client must hand back exactly those elements, or an error — never a reinterpretation.
-fn op_capr<T: Elem>(c: &mut Ctx, client: &str, kind: &str, same: bool, resp: Vec<u8>, n2: usize, p2: &[u8]) -> (String, bool) {
+fn op_capr<T: Elem>(c: &mut Ctx, client: &str, kind: &str, same: bool, resp_fmt: u16, resp: Vec<u8>, n2: usize, p2: &[u8]) -> (String, bool) {
+    let same = same && resp_fmt == 1;
     let net = c.net.expect("net started");
     let xs: Vec<T> = vec_of(&vec![0x11u8; 2 * T::W]);
     let t = std::time::Duration::from_secs(30);
     let rx = net.captured.lock().unwrap();
     while rx.try_recv().is_ok() {}
-    *NEXT_RESPONSE.lock().unwrap() = Some(resp);
+    *NEXT_RESPONSE.lock().unwrap() = Some((resp_fmt, resp));
     let r: Result<Vec<T>, repe::RepeError> = match (client, kind) {
         ("sync", "bulk") => net.cap_sync.call_typed_slice_with_timeout("/r", &xs, t),
         ("sync", "aligned") => net.cap_sync.call_typed_slice_aligned_with_timeout("/r", &xs, t),
@@ -1539,7 +1611,7 @@ fn op_capr<T: Elem>(c: &mut Ctx, client: &str, kind: &str, same: bool, resp: Vec
         Ok(v) => {
             let p = bytes_of(v);
             if !same {
-                c.fail(&format!("numeric.capr.{}.{}.wrong_type_response_accepted", client, kind), format!("a response array of another element type ({} elements) decoded to {} elements", n2, v.len()));
+                c.fail(&format!("numeric.capr.{}.{}.wrong_type_response_accepted", client, kind), format!("a response array of another element type / under body format {} ({} elements) decoded to {} elements", resp_fmt, n2, v.len()));
             } else if v.len() != n2 || p != p2 {
                 c.fail(&format!("numeric.capr.{}.{}.elements_differ", client, kind), "the response elements differ".into());
             }
@@ -1573,6 +1645,78 @@ fn op_capt(c: &mut Ctx, client: &str) -> (String, bool) {
         c.fail(&format!("numeric.capt.{}.answered", client), "a call the peer never answered returned Ok".into());
     }
     (format!("{} {}", c.idx, if r.is_ok() { "ok" } else { "err" }), false)
+}
+
+/// The request of a client helper, built by the buffered builder and written RAW to a real server in
+/// pieces (byte by byte, or cut at the given offsets, optionally with a stall); the answer is read raw and
+/// decoded by the independent layout reader.  What is served must not depend on how the bytes arrived.
+#[allow(clippy::too_many_arguments)]
+fn op_frag<T: Elem>(c: &mut Ctx, server: usize, cuts: &str, kind: &str, route: &str, cls: u8, code: u8, plen: usize, n: usize, payload: &[u8]) -> (String, bool) {
+    use std::io::{Read, Write};
+    let net = c.net.expect("net started");
+    let xs: Vec<T> = vec_of(payload);
+    let path = net_path(route, cls, code, plen);
+    let b = Message::builder().id(4242).query_str(&path).query_format(repe::constants::QueryFormat::JsonPointer);
+    let frame = match kind {
+        "bulk" => b.body_typed_slice(&xs).build(),
+        "aligned" => b.body_aligned_typed_slice(&xs).build(),
+        _ => b.body_beve(&xs).expect("serde encode").build(),
+    }
+    .to_vec();
+    let stall = cuts.ends_with('s');
+    let spec = cuts.trim_end_matches('s');
+    let mut offs: Vec<usize> = if spec == "1" { (1..frame.len()).collect() } else { spec.split(',').filter_map(|x| x.parse().ok()).filter(|o| *o > 0 && *o < frame.len()).collect() };
+    offs.sort();
+    offs.dedup();
+    let mut stream = std::net::TcpStream::connect(&net.addr[srv_ix(server)]).expect("connect");
+    let _ = stream.set_nodelay(true);
+    let _ = stream.set_read_timeout(Some(std::time::Duration::from_secs(30)));
+    let mut at = 0;
+    for (i, o) in offs.iter().chain(std::iter::once(&frame.len())).enumerate() {
+        if stream.write_all(&frame[at..*o]).is_err() || stream.flush().is_err() {
+            break;
+        }
+        at = *o;
+        if stall && i == offs.len() / 2 {
+            std::thread::sleep(std::time::Duration::from_millis(40));
+        } else if offs.len() < 64 {
+            std::thread::sleep(std::time::Duration::from_millis(1));
+        }
+    }
+    let mut hdr = [0u8; 48];
+    let tag = format!("numeric.frag.{}.{}", kind, route);
+    let expect_served = !(kind == "aligned" && route != "ref");
+    if stream.read_exact(&mut hdr).is_err() {
+        c.fail(&format!("{}.no_answer", tag), format!("no answer to a request written in {} pieces", offs.len() + 1));
+        return (format!("{} no-answer", c.idx), false);
+    }
+    let ql = u64::from_le_bytes(hdr[24..32].try_into().unwrap()) as usize;
+    let bl = u64::from_le_bytes(hdr[32..40].try_into().unwrap()) as usize;
+    let ec = u32::from_le_bytes(hdr[44..48].try_into().unwrap());
+    let mut rest = vec![0u8; (ql + bl).min(1 << 28)];
+    let _ = stream.read_exact(&mut rest);
+    let body = &rest[ql.min(rest.len())..];
+    let s = if ec != 0 {
+        if expect_served {
+            c.fail(&format!("{}.failed", tag), format!("request in {} pieces answered with error code {}", offs.len() + 1, ec));
+        }
+        format!("err Server({})", ec)
+    } else {
+        let got: Option<(usize, Vec<u8>)> = if body[..] == [0x05, 0x00] { Some((0, vec![])) } else { regular_layout(body, cls, code, T::W).map(|(d, k)| (k, body[d..d + k * T::W].to_vec())) };
+        match got {
+            Some((k, p)) => {
+                if k != n || p != payload || !expect_served {
+                    c.fail(&format!("{}.elements_differ", tag), format!("request in {} pieces: {} elements came back, bits equal: {}", offs.len() + 1, k, p == payload));
+                }
+                format!("ok {}", show_elems(k, &p))
+            }
+            None => {
+                c.fail(&format!("{}.answer_malformed", tag), "the answer is not a typed array of the element type".into());
+                "ok ?".to_string()
+            }
+        }
+    };
+    (format!("{} {}", c.idx, s), ec == 0)
 }
 
 fn cap_path(plen: usize) -> String {
@@ -1703,7 +1847,7 @@ fn exec(out: &mut Out, line: &str, net: Option<&Net>) {
     let w = words(line);
     let idx = w.get(1).copied().unwrap_or("?");
     // panics are caught per op; only the socket ops (which can hang the process) leave a marker file
-    if matches!(w[0], "net" | "cap" | "capq" | "capr" | "capt") {
+    if matches!(w[0], "net" | "cap" | "capq" | "capr" | "caprf" | "capt" | "frag") {
         out.begin(line);
     }
     let mut c = Ctx { out: &mut *out, line, idx, net };
@@ -1809,9 +1953,21 @@ fn exec(out: &mut Out, line: &str, net: Option<&Net>) {
             let (c2, k2) = ty(w[6], w[7]);
             let p2 = unhex(w[9]).unwrap();
             let resp = dispatch!(c2, k2, encode_as("regular", &p2));
-            dispatch!(cls, code, op_capr(&mut c, w[2], w[3], (cls, code) == (c2, k2), resp, u(w[8]), &p2))
+            dispatch!(cls, code, op_capr(&mut c, w[2], w[3], (cls, code) == (c2, k2), 1, resp, u(w[8]), &p2))
+        }
+        "caprf" => {
+            // the peer answers with an array of the right element type under another body format
+            let (cls, code) = ty(w[4], w[5]);
+            let p2 = unhex(w[8]).unwrap();
+            let resp = dispatch!(cls, code, encode_as("regular", &p2));
+            dispatch!(cls, code, op_capr(&mut c, w[2], w[3], true, u(w[6]) as u16, resp, u(w[7]), &p2))
         }
         "capt" => op_capt(&mut c, w[2]),
+        "frag" => {
+            let (cls, code) = ty(w[6], w[7]);
+            let p = unhex(w[10]).unwrap();
+            dispatch!(cls, code, op_frag(&mut c, u(w[2]), w[3], w[4], w[5], cls, code, u(w[8]), u(w[9]), &p))
+        }
         "abld" => {
             let (cls, code) = ty(w[2], w[3]);
             let q = unhex(w[6]).unwrap();
@@ -2018,6 +2174,13 @@ fn corrupt(r: &mut Rng, body: &[u8]) -> Vec<u8> {
     b
 }
 
+/// Body-format codes that are not Beve (1): neighbours, other reserved codes, and every 16-bit "looks
+/// like 1" class — 1 with each higher bit / nibble / byte set, 1 + 256, byte-swapped, sign bit, all ones.
+const NOT_BEVE: [u16; 30] = [
+    0, 2, 3, 4, 5, 255, 256, 257, 0x0101, 0x0100, 0x0011, 0x0081, 0x0201, 0x0401, 0x0801, 0x0FFF, 0x1000, 0x1001, 0x2001,
+    0x4001, 0x8001, 0xF001, 0xFF01, 0x7FFF, 0x8000, 0xFFFE, 0xFFFF, 999, 4096 + 2, 0x0003,
+];
+
 fn generate(seed: u64, thorough: bool) -> Vec<String> {
     let mut g = Gen { r: Rng::new(seed), ops: Vec::new(), i: 0 };
 
@@ -2133,7 +2296,7 @@ fn generate(seed: u64, thorough: bool) -> Vec<String> {
             for _ in 0..3 {
                 let src = match g.r.below(3) { 0 => &regular, 1 => &aligned, _ => &generic };
                 let bad = corrupt(&mut g.r, src);
-                let fmt = if g.r.chance(1, 8) { *g.r.pick(&[0u16, 2, 3, 4, 999]) } else { 1 };
+                let fmt = if g.r.chance(1, 8) { *g.r.pick(&NOT_BEVE) } else { 1 };
                 push!(g, "ref", "{} {} {} {} {} {}", cls, code, fmt, g.r.below(8), qlen, hex(&bad));
                 push!(g, "slice", "{} {} {} {} {}", cls, code, fmt, qlen, hex(&bad));
                 push!(g, "dec", "{} {} {} {}", cls, code, fmt, hex(&bad));
@@ -2262,7 +2425,7 @@ fn generate(seed: u64, thorough: bool) -> Vec<String> {
         }
     }
     for (cls, code, w) in TYPES {
-        for fmt in [0u16, 2, 3, 4, 255, 257, 65535] {
+        for fmt in NOT_BEVE {
             let n = g.r.below(6) as usize;
             let p = gen_payload(&mut g.r, cls, code, w, n, 1);
             push!(g, "wrongfmt", "{} {} {} {} {}", cls, code, fmt, n, hex(&p));
@@ -2412,7 +2575,7 @@ fn generate(seed: u64, thorough: bool) -> Vec<String> {
                 6 => dispatch!(cls, code, real_aligned(q.len() + 1 + g.r.below(7) as usize, &p)),
                 _ => dispatch!(cls, code, real_aligned(q.len(), &p)),
             };
-            let fmt = if g.r.chance(1, 9) { *g.r.pick(&[0u16, 2, 3, 65535]) } else { 1 };
+            let fmt = if g.r.chance(1, 9) { *g.r.pick(&NOT_BEVE) } else { 1 };
             let hk = *g.r.pick(&["same", "same", "slow", "bytes", "err", "err", "panics", "panicstr", "panicint"]);
             let mis = if g.r.chance(1, 2) { 0 } else { g.r.below(16) };
             line.push_str(&format!(" {} {} {} {}", hk, fmt, mis, hex(&body)));
@@ -2447,6 +2610,136 @@ fn generate(seed: u64, thorough: bool) -> Vec<String> {
             for mis in [0usize, g.r.range(1, 15) as usize] {
                 push!(g, "abld", "{} {} {} {} {} {} {}", cls, code, mis, g.r.below(2), hex(&q), n, hex(&p));
             }
+        }
+    }
+
+    // ---- 6e. sizes around internal constants (8 KiB buffered reader / writer, 64 KiB, 128 KiB, 1 MiB) on every
+    //          entry point: payload bytes just below / at / just above, typed and complex
+    let mut targets: Vec<usize> = vec![8191, 8192, 8193, 8192 - 48 - 9, 65535, 65536, 65537, 131071, 131073];
+    if thorough {
+        targets.extend_from_slice(&[8192 - 48, 16384, 32768 + 1, 196609, 1048575, 1048576, 1048577, 2097153]);
+    } else {
+        targets.push(*g.r.pick(&[1048575usize, 1048577]));
+    }
+    for (i, bytes) in targets.iter().enumerate() {
+        let (cls, code, w) = [(2u8, 0u8, 1usize), (0, 3, 8), (1, 1, 2), (0, 2, 4), (2, 4, 16)][(i + g.r.below(5) as usize) % 5];
+        // element counts whose byte size straddles the target
+        let n = bytes / w + if bytes % w == 0 { 0 } else { 1 };
+        let n = if g.r.chance(1, 2) && n > 1 && bytes % w == 0 { n } else { n + (i % 2) };
+        let p = gen_payload(&mut g.r, cls, code, w, n, 1);
+        let plen = *g.r.pick(&PLENS[1..]);
+        let q = path_of(g.r.below(20) as usize).into_bytes();
+        push!(g, "enc", "{} {} {} {}", cls, code, n, hex(&p));
+        push!(g, "stream", "{} {} {} 0 0 1 {} {} {}", cls, code, g.r.boundary(64), hex(&q), n, hex(&p));
+        let cn = bytes / (2 * w) + 1;
+        let cp = gen_payload(&mut g.r, cls, code, w, cn, 2);
+        push!(g, "cstream", "{} {} {} 1 0 1 {} {} {}", cls, code, g.r.boundary(64), hex(&q), cn, hex(&cp));
+        push!(g, "cenc", "{} {} {} {}", cls, code, cn, hex(&cp));
+        let regular = real_typed_body(cls, code, &p);
+        let aligned = dispatch!(cls, code, real_aligned(q.len(), &p));
+        push!(g, "dec", "{} {} 1 {}", cls, code, hex(&regular));
+        push!(g, "cdec", "{} {} 1 {}", cls, code, hex(&real_complex_body(cls, code, &cp)));
+        // both dispatch paths of both routes
+        push!(g, "slice", "{} {} 1 {} {}", cls, code, q.len(), hex(&regular));
+        push!(g, "ref", "{} {} 1 {} {} {}", cls, code, g.r.below(16), q.len(), hex(&regular));
+        push!(g, "ref", "{} {} 1 0 {} {}", cls, code, q.len(), hex(&aligned));
+        push!(g, "aref", "{} {} 0 {} 0 1 {} {}", cls, code, q.len(), n, hex(&p));
+        push!(g, "seq", "{} {} bytes typed 0 {} {} {} {}", cls, code, q.len(), bytes + 200, hex(&p[..(p.len() / (2 * w)) * 2 * w]), hex(&p[..(p.len() / (2 * w)) * 2 * w]));
+        if i % 2 == 0 || thorough {
+            push!(g, "net", "{} {} bulk slice {} {} {} {} {}", *g.r.pick(&[0, 1, 3]), *g.r.pick(&["sync", "async"]), cls, code, plen, n, hex(&p));
+            push!(g, "net", "{} {} aligned ref {} {} {} {} {}", *g.r.pick(&[0, 1, 3]), *g.r.pick(&["sync", "async"]), cls, code, plen, n, hex(&p));
+            push!(g, "cap", "{} aligned {} {} {} {} {}", *g.r.pick(&["sync", "async", "syncp", "asyncp"]), cls, code, g.r.below(17), n, hex(&p));
+        } else {
+            push!(g, "net", "{} {} serde typed {} {} {} {} {}", *g.r.pick(&[0, 1, 3]), *g.r.pick(&["sync", "async"]), cls, code, plen, n, hex(&p));
+            push!(g, "net", "{} {} bulk ref {} {} {} {} {}", *g.r.pick(&[0, 1, 3]), *g.r.pick(&["sync", "async"]), cls, code, plen, n, hex(&p));
+        }
+    }
+
+    // ---- 6f. N identical events in a row on one route handler, then an ordinary request --------------------
+    let mut runs: Vec<usize> = vec![1, 2, 7, 8, 9, 16, 17, 64, 65];
+    if thorough {
+        runs.extend_from_slice(&[256, 257, 1000]);
+    }
+    for (i, run) in runs.iter().enumerate() {
+        for event in ["wrongtype", "wrongfmt", "corrupt", "err", "panics", "unaligned", "empty"] {
+            if !thorough && *run > 17 && (i + event.len()) % 3 != 0 {
+                continue;
+            }
+            let (cls, code, w) = TYPES[(i * 3 + event.len()) % 14];
+            let (c2, k2, w2) = TYPES[(i * 3 + event.len() + 5) % 14];
+            let kind = if event == "unaligned" || i % 2 == 0 { "ref" } else { "slice" };
+            let q = path_of(g.r.below(16) as usize).into_bytes();
+            let p = gen_payload(&mut g.r, cls, code, w, 3, 1);
+            let good_regular = real_typed_body(cls, code, &p);
+            let good_aligned = dispatch!(cls, code, real_aligned(q.len(), &p));
+            let (hk, fmt, mis, body): (&str, u16, usize, Vec<u8>) = match event {
+                "wrongtype" => ("same", 1, 0, real_typed_body(c2, k2, &gen_payload(&mut g.r, c2, k2, w2, 2, 1))),
+                "wrongfmt" => ("same", *g.r.pick(&NOT_BEVE), 0, good_regular.clone()),
+                "corrupt" => ("same", 1, 0, good_regular[..good_regular.len() - 1].to_vec()),
+                "err" => ("err", 1, 0, good_regular.clone()),
+                "panics" => ("panics", 1, 0, good_regular.clone()),
+                "unaligned" => ("same", 1, if w > 1 { 1 } else { 0 }, good_aligned.clone()),
+                _ => ("same", 1, 0, real_typed_body(cls, code, &[])),
+            };
+            let mut line = format!("{} 0 {} {} {} {}", kind, cls, code, hex(&q), run + 2);
+            for _ in 0..*run {
+                line.push_str(&format!(" {} {} {} {}", hk, fmt, mis, hex(&body)));
+            }
+            // then: the borrowing route still borrows an aligned request, the bulk route still serves
+            if kind == "ref" {
+                line.push_str(&format!(" same 1 0 {}", hex(&good_aligned)));
+            } else {
+                line.push_str(&format!(" same 1 0 {}", hex(&good_regular)));
+            }
+            line.push_str(&format!(" bytes 1 {} {}", g.r.below(16), hex(&good_regular)));
+            g.push("hseq", line);
+        }
+    }
+    // N calls in a row that time out / are answered with another element type, then ordinary calls (section 7)
+    for (i, fmt) in NOT_BEVE.iter().enumerate() {
+        let (cls, code, w) = TYPES[i % 14];
+        let n = g.r.below(4) as usize;
+        let p = gen_payload(&mut g.r, cls, code, w, n, 1);
+        push!(g, "caprf", "{} {} {} {} {} {} {}", *g.r.pick(&["sync", "syncp", "async", "asyncp"]), *g.r.pick(&["bulk", "aligned"]), cls, code, fmt, n, hex(&p));
+    }
+    push!(g, "caprf", "sync bulk 0 3 1 1 000000000000f03f");
+    for (client, runlen) in [("sync", 2usize), ("async", 3)] {
+        for _ in 0..(if thorough { runlen + 6 } else { runlen }) {
+            push!(g, "capt", "{}", client);
+        }
+        for _ in 0..(if thorough { 17 } else { 9 }) {
+            push!(g, "capr", "{} aligned 0 3 2 1 2 01000200", client);
+        }
+        push!(g, "cap", "{} aligned 0 3 3 2 000000000000f03f000000000000f0ff", client);
+    }
+
+    // ---- 6g. the request written raw to the real servers in pieces ----------------------------------------
+    for round in 0..(if thorough { 120 } else { 24 }) {
+        let (cls, code, w) = TYPES[round % 14];
+        let (kind, route) = [("aligned", "ref"), ("bulk", "slice"), ("serde", "slice"), ("bulk", "typed"), ("aligned", "ref"), ("bulk", "ref")][round % 6];
+        let one_byte = round % 8 == 7;
+        let n = if one_byte { g.r.below(5) as usize } else if round % 5 == 0 { 9000 / w } else { g.r.below(80) as usize };
+        let p = gen_payload(&mut g.r, cls, code, w, n, 1);
+        let plen = *g.r.pick(&PLENS[1..]);
+        let total = 48 + plen + n * w + 12;
+        let cuts = if one_byte {
+            "1".to_string()
+        } else {
+            let mut v = vec![g.r.range(1, 47), *g.r.pick(&[47u64, 48, 49]), 48 + g.r.below(plen as u64 + 1), 48 + plen as u64 + g.r.below(6)];
+            if round % 3 == 0 {
+                v.push(g.r.range(48, total as u64));
+                v.push(*g.r.pick(&[8192u64, 8191, 8193]));
+            }
+            let t: Vec<String> = v.iter().take(2 + round % 5).map(|x| x.to_string()).collect();
+            format!("{}{}", t.join(","), if round % 4 == 1 { "s" } else { "" })
+        };
+        push!(g, "frag", "{} {} {} {} {} {} {} {} {}", *g.r.pick(&[0, 1, 3]), cuts, kind, route, cls, code, plen, n, hex(&p));
+    }
+    // answers that arrive in pieces / byte by byte with a stall
+    for client in ["sync", "asyncp"] {
+        for (path, n) in [("/!frag/x", 40usize), ("/!frag1", 3), ("/!frag/big", 1200)] {
+            let p = gen_payload(&mut g.r, 0, 3, 8, n, 1);
+            push!(g, "capq", "{} bulk 0 3 {} {} {}", client, hex(path.as_bytes()), n, hex(&p));
         }
     }
 
@@ -2514,20 +2807,26 @@ fn main() {
     let args = Args::parse();
     quiet_panics();
     let mut out = Out::new(&args.out);
-    out.rule = "element types bf16,f16,f32,f64,i8..i64,u8..u64 as raw little-endian blocks (NaN payloads quiet/signalling, ±inf, ±0, subnormals, min/max, random bits); vectors of every length 0..70 (thorough: 0..4096) plus 127..4096 boundaries, 2^14±1 and (thorough) one 2^20; complex pairs; three-way comparison bulk body / serde body / model, both decoders on both bodies incl. the empty vector; aligned form behind every query length 0..64 for every type and SIZE width, the frame copied to every base misalignment 0..7 of a Vec<u64> and served by the with_typed_slice_ref handler (pointer-range test: borrowed iff payload address aligned); regular / generic / aligned-for-another-offset / corrupted bodies and every first byte through both bulk routes (view and owned); every ordered pair of distinct element types in regular, aligned and complex form; wrong body formats; streaming writers (typed, complex and write_message_streaming itself; Vec sink and write-only / gathering sinks taking 1..1000 bytes per call, limits around the header end and the query end, every query length 0..64) vs buffered builders; real Server and AsyncServer with bulk, aligned and serde clients (blocking and async); two body setters in a row on one builder for every ordered pair of setters (bytes with spare capacity, utf8, json, beve, typed, complex, aligned; query before / after): the last setter wins; 3..5 requests through one route handler instance (bare / behind a middleware; closure echoing, answering another element type, returning Err, panicking with String / &str / non-string payloads; bodies > 64 KiB; arbitrary query bytes), each step judged from the raw bytes by an independent layout reader; aligned builder behind non-UTF-8 and long (≤ 100 k) queries; client calls answered with arrays of another element type, calls that time out followed by further calls on the same client, non-ASCII and long paths; the raw request frame every client helper writes, captured by a stand-in peer for every element type and path length 0..16 (+ longer), compared with the MessageBuilder frame and served by the borrowing route at base misalignments 0..7. Distinct by op line; non-trivial = the decoder / route / call accepted and returned elements (encoders: non-empty vector)".into();
+    out.rule = "element types bf16,f16,f32,f64,i8..i64,u8..u64 as raw little-endian blocks (NaN payloads quiet/signalling, ±inf, ±0, subnormals, min/max, random bits); vectors of every length 0..70 (thorough: 0..4096) plus 127..4096 boundaries, 2^14±1 and (thorough) one 2^20; complex pairs; three-way comparison bulk body / serde body / model, both decoders on both bodies incl. the empty vector; aligned form behind every query length 0..64 for every type and SIZE width, the frame copied to every base misalignment 0..7 of a Vec<u64> and served by the with_typed_slice_ref handler (pointer-range test: borrowed iff payload address aligned); regular / generic / aligned-for-another-offset / corrupted bodies and every first byte through both bulk routes (view and owned); every ordered pair of distinct element types in regular, aligned and complex form; wrong body formats; streaming writers (typed, complex and write_message_streaming itself; Vec sink and write-only / gathering sinks taking 1..1000 bytes per call, limits around the header end and the query end, every query length 0..64) vs buffered builders; real Server and AsyncServer with bulk, aligned and serde clients (blocking and async); two body setters in a row on one builder for every ordered pair of setters (bytes with spare capacity, utf8, json, beve, typed, complex, aligned; query before / after): the last setter wins; 3..5 requests through one route handler instance (bare / behind a middleware; closure echoing, answering another element type, returning Err, panicking with String / &str / non-string payloads; bodies > 64 KiB; arbitrary query bytes), each step judged from the raw bytes by an independent layout reader; aligned builder behind non-UTF-8 and long (≤ 100 k) queries; client calls answered with arrays of another element type, calls that time out followed by further calls on the same client, non-ASCII and long paths; payload sizes just below / at / above 8 KiB, 64 KiB, 128 KiB, 1 MiB on every entry point (typed and complex, streaming writers included); runs of 1..65 (thorough 1000) identical bad events through one handler followed by an ordinary request, runs of timed-out / wrongly answered calls on one client; requests written raw to the real servers byte by byte / at cut points around 48 and the query end with stalls, answers arriving in pieces; sinks reporting Interrupted; 30 non-Beve format codes incl. every 16-bit look-alike of 1; a third server with read/write timeouts and nodelay, a starved runtime on odd seeds; the raw request frame every client helper writes, captured by a stand-in peer for every element type and path length 0..16 (+ longer), compared with the MessageBuilder frame and served by the borrowing route at base misalignments 0..7. Distinct by op line; non-trivial = the decoder / route / call accepted and returned elements (encoders: non-empty vector)".into();
     let ops = match args.replay_ops() {
         Some(o) => o,
         // `--release-shape` (the optimised-build run of the thorough tier): the quick-sized mix, other seed
         None if args.has("--release-shape") => generate(args.seed.wrapping_add(0x5EED), false),
         None => generate(args.seed, args.thorough()),
     };
-    let need_net = ops.iter().any(|l| l.starts_with("net ") || l.starts_with("cap"));
+    SEED.store(args.seed, std::sync::atomic::Ordering::Relaxed);
+    let need_net = ops.iter().any(|l| l.starts_with("net ") || l.starts_with("cap") || l.starts_with("frag "));
     let net = if need_net { Some(start_net()) } else { None };
     for line in &ops {
         if line.trim().is_empty() {
             continue;
         }
         exec(&mut out, line, net.as_ref());
+        if out.oracle_failures >= 12 && args.replay.is_none() {
+            // a broken tree: the first dozen failing inputs are enough, do not run the rest
+            out.count("stopped_after_12_oracle_failures");
+            break;
+        }
     }
     out.finish();
     std::process::exit(0); // servers run on detached threads
